@@ -1,6 +1,8 @@
 import GenjaxModel.Proofs.GfiCohInv
 import GenjaxModel.Proofs.GfiAssess
 import GenjaxModel.Proofs.GfiAssessCond
+import GenjaxModel.Proofs.GfiLawMain  -- (c01law block at the end of this file)
+import Mathlib.Algebra.Group.TypeTags.Basic  -- (c01law block: `Additive ℚ` in a non-vacuity example)
 /-!
 # C01 — assess is the joint log density; simulate reports score = -assess(choices) and the same retval
 
@@ -120,5 +122,227 @@ example : condExDeep.skel.isSome := rfl
 
 /-- incompatible branches (a Distribution against a Fn): no skeleton, `get_choices()` raises -/
 example : (GF.cond (.dist 0) (.fn (.ret (.const 0)))).skel = none := rfl
+
+end Genjax
+
+/-! # ===================== c01law: THE LAW OF `simulate` =====================
+  (appended block; model `Model/GfiDist.lean`, proofs `Proofs/GfiDistMonad.lean`,
+  `Proofs/GfiLawLemmas.lean`, `Proofs/GfiLaw.lean`, `Proofs/GfiDistSupp.lean`,
+  `Proofs/GfiLawTotal.lean`, `Proofs/GfiLawMain.lean`)
+
+  The second half of C01: "its choices are distributed according to that density (outcome by outcome
+  for discrete programs)".  `GF.simD pd P g args` is `GF.simulate` with every Distribution site
+  drawing from a finite-support distribution `pd` (a weighted list of outcomes, an outcome being a
+  trace or "the code raised"), `GF.assessP pd g x args` is `GF.assess` in the linear domain (the
+  PRODUCT of the site masses).  `E d φ` is the exact expectation `Σ p·φ(outcome)`; `optK φ` extends
+  `φ` by 0 to the outcome "raised".  Hypotheses on the primitives: `pd.WF` (the support lists every
+  value once, the mass vanishes outside it), `pd.Normalised` (total mass 1, needed only for Cond:
+  the hidden branch's draws are marginalised out). -/
+namespace Genjax
+open Smc Smc.FinDist
+
+section C01Law
+variable {K : Type} [Field K]
+
+/-- TIE of the distribution-valued model to the executable one: with the point-mass primitives of
+    the probe sampler, `simD` IS `simulate` (same trace, or "raises" when `simulate` raises) —
+    every program, every argument list. -/
+theorem C01_simD_pointmass {R : Type} [Zero R] [Add R] [Neg R] (P : Prims R) (g : GF)
+    (args : List Val) :
+    g.simD (PD.ofDraw P : PD K) P args = FinDist.pure (g.simulate P args) :=
+  simD_pointmass P g args
+
+/-- TIE of `assessP` to `assess`: when the masses are the exponentials of the log densities
+    (`e 0 = 1`, `e (a + b) = e a · e b`, `pm = e ∘ lp`), `assessP` is `assess` pushed through `e`:
+    it raises exactly when `assess` raises, returns the same value, and the product of the masses is
+    `e` of the sum of the log densities. -/
+theorem C01_assessP_is_exp_assess {R : Type} [Zero R] [Add R] (e : R → K) (he0 : e 0 = 1)
+    (hadd : ∀ a b, e (a + b) = e a * e b) (pd : PD K) (P : Prims R)
+    (hpm : ∀ d a v, pd.pm d a v = e (P.lp d a v)) (g : GF) (x : CM) (args : List Val) :
+    g.assessP pd x args = (g.assess P x args).map fun p => (e p.1, p.2) :=
+  assessP_eq_exp_assess e he0 hadd pd P hpm g x args
+
+/-- non-vacuity of the tie: integer log densities base 2, `e n = 2^n` -/
+example : ∃ e : ℤ → ℚ, e 0 = 1 ∧ ∀ a b, e (a + b) = e a * e b :=
+  ⟨fun n => (2 : ℚ) ^ n, by simp, fun a b => zpow_add₀ (by norm_num) a b⟩
+
+/-- **THE LAW, Cond-free programs** (`_partial`; superseded by `C01_simulate_law`, which needs
+    normalisation and a condition on the Conds).  For every program built from Distribution, Fn,
+    Vmap, Scan at any depth, every argument list and every choice map `x` of the program's static
+    shape: the probability that `simulate` produces a trace whose choice map is `x` equals the
+    product of the site masses `assessP` computes on `x` (0 where `assessP` raises — which for a map
+    of the right shape happens only when an address is traced twice, and then `simulate` raises on
+    every run).  Only hypothesis on the primitives: `pd.WF`; in particular a leaf value outside its
+    primitive's support gives probability 0 on both sides. -/
+theorem C01_simulate_law_partial {R : Type} [Zero R] [Add R] [Neg R] (pd : PD K) (P : Prims R)
+    (hpd : pd.WF) (g : GF) (hcf : g.condFree = true) (args : List Val) (x : CM)
+    (hs : g.skel = some x.skel) :
+    E (g.simD pd P args) (optK fun t => if t.choices = some x then 1 else 0)
+      = pmassOf (g.assessP pd x args) := by
+  rw [← massOf_one]
+  exact simD_law_condFree pd P hpd g hcf args x (fun _ => 1) hs
+
+/-- the law stated with the EXISTING `GF.assess` (`_partial`: Cond-free): if the masses are the
+    exponentials of the log densities (`pm = e ∘ lp`, `e 0 = 1`, `e (a + b) = e a · e b`), the
+    probability that the simulated choice map is `x` is `e` of the log density `assess` returns on
+    `x`.  (The weight type only needs `0, +, -`, so that it can contain `log 0`; see the example
+    below.) -/
+theorem C01_simulate_law_exp_assess_partial {R : Type} [Zero R] [Add R] [Neg R] (e : R → K)
+    (he0 : e 0 = 1) (hadd : ∀ a b, e (a + b) = e a * e b) (pd : PD K) (P : Prims R)
+    (hpm : ∀ d a v, pd.pm d a v = e (P.lp d a v)) (hpd : pd.WF) (g : GF)
+    (hcf : g.condFree = true) (args : List Val) (x : CM) (hs : g.skel = some x.skel) :
+    E (g.simD pd P args) (optK fun t => if t.choices = some x then 1 else 0)
+      = (match g.assess P x args with
+         | some lr => e lr.1
+         | none => 0) := by
+  rw [C01_simulate_law_partial pd P hpd g hcf args x hs,
+    assessP_eq_exp_assess e he0 hadd pd P hpm g x args]
+  cases g.assess P x args <;> rfl
+
+/-- non-vacuity: the weight type `Additive ℚ` (ℚ with `0 := 1`, `+ := ·`, i.e. the log domain
+    including `log 0`), `e` the identity, log densities `lp := pm` of the concrete primitives -/
+example : ∃ (e : Additive ℚ → ℚ) (P : Prims (Additive ℚ)), e 0 = 1 ∧
+    (∀ a b, e (a + b) = e a * e b) ∧ (∀ d a v, lawExPD.pm d a v = e (P.lp d a v)) ∧ lawExPD.WF :=
+  ⟨Additive.toMul, ⟨fun d a v => Additive.ofMul (lawExPD.pm d a v), fun _ _ => .num 0⟩, rfl,
+    fun _ _ => rfl, fun _ _ _ => rfl, lawExPD_wf⟩
+
+variable {R : Type} [AddCommGroup R] (pd : PD K) (P : Prims R)
+
+/-- **THE LAW** for every program, Cond at any depth, under `g.condOK`: at every Cond the two
+    branches have the same static choice-map skeleton and trace no address twice (decidable; true for
+    Cond-free programs).  The probability that the choice map of the simulated trace is `x` is the
+    product of the site masses that `assessP` computes on `x`.
+    Supersedes `C01_simulate_law_partial`.  The shape condition on Conds cannot be dropped:
+    `C01_simulate_law_fails_on_mixed_cond`. -/
+theorem C01_simulate_law (hpd : pd.WF) (hnorm : pd.Normalised) (g : GF) (hc : g.condOK = true)
+    (args : List Val) (x : CM) (hs : g.skel = some x.skel) :
+    E (g.simD pd P args) (optK fun t => if t.choices = some x then 1 else 0)
+      = pmassOf (g.assessP pd x args) := by
+  rw [← massOf_one]
+  exact simD_law pd P hpd hnorm g hc args x (fun _ => 1) hs
+
+/-- the law jointly with the return value: (choices, retval) = (x, r) has the probability
+    `assessP` assigns to `x` if `r` is the return value `assessP` computes, and 0 otherwise — the
+    simulated trace's return value is the one `assess` returns on its choices, with probability 1. -/
+theorem C01_simulate_law_retval (hpd : pd.WF) (hnorm : pd.Normalised) (g : GF)
+    (hc : g.condOK = true) (args : List Val) (x : CM) (r : Val) (hs : g.skel = some x.skel) :
+    E (g.simD pd P args) (optK fun t => if t.choices = some x ∧ t.retval = r then 1 else 0)
+      = (match g.assessP pd x args with
+         | some pr => if pr.2 = r then pr.1 else 0
+         | none => 0) := by
+  have := simD_law pd P hpd hnorm g hc args x (fun r' => if r' = r then 1 else 0) hs
+  have hfun : (fun t : Tr R => if t.choices = some x ∧ t.retval = r then (1 : K) else 0)
+      = choicesAre x (fun r' => if r' = r then 1 else 0) := by
+    funext t
+    simp only [choicesAre, ite_and]
+  rw [hfun, this]
+  cases g.assessP pd x args with
+  | none => rfl
+  | some pr => simp [massOf]
+
+/-- the general form: expectation of any function `ψ` of the return value on the event
+    "the choice map is `x`" -/
+theorem C01_simulate_law_fn (hpd : pd.WF) (hnorm : pd.Normalised) (g : GF) (hc : g.condOK = true)
+    (args : List Val) (x : CM) (ψ : Val → K) (hs : g.skel = some x.skel) :
+    E (g.simD pd P args) (optK fun t => if t.choices = some x then ψ t.retval else 0)
+      = (match g.assessP pd x args with
+         | some pr => pr.1 * ψ pr.2
+         | none => 0) := by
+  refine (simD_law pd P hpd hnorm g hc args x ψ hs).trans ?_
+  cases g.assessP pd x args <;> rfl
+
+/-- mass 0 outside the static shape: a choice map that does not have the program's skeleton is
+    never produced (any program, any primitives) -/
+theorem C01_simulate_law_off_shape (g : GF) (args : List Val) (x : CM)
+    (hs : g.skel ≠ some x.skel) :
+    E (g.simD pd P args) (optK fun t => if t.choices = some x then (1 : K) else 0) = 0 :=
+  simD_law_off_shape pd P g args x (fun _ => 1) hs
+
+/-- on a program satisfying the hypotheses of the law, `assessP` does not raise on maps of the
+    static shape (so the `none` branch of `pmassOf` is not what makes `C01_simulate_law` true) -/
+theorem C01_assessP_defined (pd : PD K) (g : GF) (hn : g.noCollide = true) (hc : g.condOK = true)
+    (x : CM) (args : List Val) (hs : g.skel = some x.skel) : (g.assessP pd x args).isSome :=
+  assessP_defined pd g hn hc x args hs
+
+/-- **total mass 1**: with normalised primitives `simD g args` is a probability distribution over
+    outcomes — every program (Cond included), every argument list -/
+theorem C01_simulate_mass_one (hnorm : pd.Normalised) (g : GF) (args : List Val) :
+    mass (g.simD pd P args) = 1 := simD_mass pd P hnorm g args
+
+/-- … and all of it sits on traces (no run raises) when no Fn body traces an address twice -/
+theorem C01_simulate_mass_one_traces (hnorm : pd.Normalised) (g : GF) (hn : g.noCollide = true)
+    (args : List Val) : E (g.simD pd P args) (optK fun _ => (1 : K)) = 1 :=
+  simD_mass_some pd P hnorm g hn args
+
+/-- every trace `simD` can produce (positive or zero probability, any primitives) is coherent, and
+    `assess` on its choices returns `(-score, retval)`: the distributional version of
+    `C01_simulate_score_assess` -/
+theorem C01_simD_support_score_assess (g : GF) (args : List Val) (t : Tr R)
+    (h : some t ∈ supp (g.simD pd P args)) (x : CM) (hx : t.choices = some x) :
+    g.Coh P args t ∧ g.assess P x args = some (-t.score, t.retval) :=
+  ⟨simD_coh pd P g args t h, coh_assess P g args t (simD_coh pd P g args t h) x hx⟩
+
+/-- … and its choice map has the program's static skeleton -/
+theorem C01_simD_support_choices_skel (g : GF) (args : List Val) (t : Tr R)
+    (h : some t ∈ supp (g.simD pd P args)) : t.choices.map CM.skel = g.skel :=
+  simD_choices_skel pd P g args t h
+
+end C01Law
+
+/-- The shape condition on Conds in `C01_simulate_law` is necessary.  `lawExCondBad` is
+    `cond(c, {x ~ coin}, {x ~ coin; y ~ coin})`; with the true branch selected the merged choice map
+    `{x: 1, y: 1}` has probability `1/2 · 1/2 = 1/4` (`y` comes from the hidden branch), whereas
+    `assess` on it reports the selected branch's density `1/2`: the choice maps of such a Cond are
+    NOT distributed according to the density `assess` computes (which sums to 2 over the four maps).
+    All other hypotheses of `C01_simulate_law` hold for this instance. -/
+theorem C01_simulate_law_fails_on_mixed_cond :
+    lawExPD.WF ∧ lawExPD.Normalised ∧ lawExCondBad.noCollide = true ∧
+    lawExCondBad.skel = some (lawExX 1 1).skel ∧
+    E (lawExCondBad.simD lawExPD lawExP [.num 1])
+      (optK fun t => if t.choices = some (lawExX 1 1) then 1 else 0) = 1/4 ∧
+    pmassOf (lawExCondBad.assessP lawExPD (lawExX 1 1) [.num 1]) = 1/2 :=
+  ⟨lawExPD_wf, lawExPD_normalised, by decide +kernel, by decide +kernel, by decide +kernel,
+    by decide +kernel⟩
+
+/-! ### non-vacuity (exact rationals; `lawExPD`: a coin with parameter, a three-valued primitive) -/
+
+/-- hypotheses of the law on the concrete primitives -/
+example : lawExPD.WF ∧ lawExPD.Normalised := ⟨lawExPD_wf, lawExPD_normalised⟩
+
+/-- two sites, the second depending on the first (`x ~ coin(1/3); y ~ coin(1/4 + x/2)`):
+    hypotheses and both sides of `C01_simulate_law_partial`, computed: `P(x=1, y=1) = 1/3 · 3/4` -/
+example : lawExG.condFree = true ∧ lawExG.skel = some (lawExX 1 1).skel ∧
+    E (lawExG.simD lawExPD lawExP [.num 0]) (optK fun t => if t.choices = some (lawExX 1 1) then 1 else 0)
+      = 1/4 ∧
+    pmassOf (lawExG.assessP lawExPD (lawExX 1 1) [.num 0]) = 1/4 := by
+  refine ⟨by decide +kernel, by decide +kernel, by decide +kernel, by decide +kernel⟩
+
+/-- a value outside the support (`y = 5`): probability 0 on both sides -/
+example :
+    E (lawExG.simD lawExPD lawExP [.num 0]) (optK fun t => if t.choices = some (lawExX 1 5) then 1 else 0)
+      = 0 ∧ pmassOf (lawExG.assessP lawExPD (lawExX 1 5) [.num 0]) = 0 := by
+  refine ⟨by decide +kernel, by decide +kernel⟩
+
+/-- a Scan (2 steps, the carry feeds the next step's parameters) of a Fn calling a Vmap (2 lanes):
+    `P(lanes = (1,0) then (1,1)) = 1/4 · 5/8 · 1/2 · 5/8` -/
+example : lawExScan.condFree = true ∧ lawExScan.skel = some (lawExScanX 1 0 1 1).skel ∧
+    E (lawExScan.simD lawExPD lawExP lawExScanArgs)
+      (optK fun t => if t.choices = some (lawExScanX 1 0 1 1) then 1 else 0) = 25/512 ∧
+    pmassOf (lawExScan.assessP lawExPD (lawExScanX 1 0 1 1) lawExScanArgs) = 25/512 := by
+  refine ⟨by decide +kernel, by decide +kernel, by decide +kernel, by decide +kernel⟩
+
+/-- a Cond with branches of the same shape (`C01_simulate_law`): false branch selected,
+    `P(x = 2) = 1/6`, return value `x + 10` -/
+example : lawExCond.condOK = true ∧ lawExCond.skel =
+      some (CM.node (.cons "x" (.leaf (.num 2)) .nil)).skel ∧
+    E (lawExCond.simD lawExPD lawExP [.num 0])
+      (optK fun t => if t.choices = some (.node (.cons "x" (.leaf (.num 2)) .nil)) ∧
+        t.retval = .num 12 then 1 else 0) = 1/6 ∧
+    lawExCond.assessP lawExPD (.node (.cons "x" (.leaf (.num 2)) .nil)) [.num 0]
+      = some (1/6, .num 12) := by
+  refine ⟨by decide +kernel, by decide +kernel, by decide +kernel, by decide +kernel⟩
+
+/-- total mass on the Scan/Vmap instance -/
+example : mass (lawExScan.simD lawExPD lawExP lawExScanArgs) = 1 := by decide +kernel
 
 end Genjax
